@@ -161,6 +161,13 @@ def main():
              "the polarity of a condition, an argument handed to a helper, a missing / duplicated / misplaced call, an early return, a wrong field - "
              "in code the test suite does not run; NOT a memory-ordering or barrier change")
         table = dict((k, g) for k in FOCUS)
+    if "--focus6" in sys.argv:
+        use_focus = True
+        g = ("a lifecycle or hand-over step rather than the steady state: initialisation / first use, teardown, destroy, exit, unregister and "
+             "re-register, a helper or worker being created, paused, resumed or stopped, state handed from one thread or structure to another; "
+             "or a writer and a reader of the same flag / counter / encoded word that no longer agree on its value, polarity, mask or width; "
+             "prefer a clause of the property other than its first sentence")
+        table = dict((k, g) for k in FOCUS)
     props = {json.loads(l)["id"]: json.loads(l) for l in open(os.path.join(V, "properties.jsonl"))}
     prev = {}
     for m in sorted(glob.glob(os.path.join(V, "seeded", "C*-*", "meta.json"))):
